@@ -1,5 +1,5 @@
 #!/bin/sh
-cd /verif
+cd /verif && mkdir -p .cache/logs
 rm -f .cache/logs/quick-summary.txt
 for id in C01 C02 C03 C04 C05 C06 C07 C08 C09 C10 C11 C12 C13 C14 C15 C16 C17 C18 C19; do
   s=$(date +%s)
